@@ -296,6 +296,7 @@ def run_impl(c):
     logging.getLogger("linker").disabled = True
     objs = build_objects(c)
     layout = build_layout(c)
+    before = snapshot_inputs(objs)
     piece_of = {}
     for k, of in enumerate(objs):
         for i, s in enumerate(of.sections):
@@ -320,7 +321,89 @@ def run_impl(c):
             r = ("err", exc_name(e))
     finally:
         objectfile.Section.add_data = orig
+    _ALIAS[id(c)] = aliasing_checks(c, objs, before, r)
     return r, objs, observed
+
+
+_ALIAS = {}
+
+
+def snapshot_inputs(objs):
+    """own field walk over the input ObjectFiles (nothing of ppci's __eq__/serialize is used)"""
+    snap = []
+    for o in objs:
+        snap.append({
+            "sections": [(s.name, s.address, s.alignment, bytes(s.data)) for s in o.sections],
+            "symbols": [(s.id, s.name, s.binding, s.value, s.section, s.typ, s.size) for s in o.symbols],
+            "relocations": [(r.reloc_type, r.symbol_id, r.section, r.offset, r.addend) for r in o.relocations],
+            "images": [(i.name, i.address, [x.name for x in i.sections]) for i in o.images],
+            "entry": o.entry_symbol_id,
+        })
+    return snap
+
+
+def link_outcome(c, objs, layout):
+    from ppci.api import link
+    try:
+        out = link(objs, layout=layout, partial_link=c["partial"],
+                   extra_symbols=dict((n, v) for n, v in c["extras"]) if c["extras"] else None, entry=c["entry"])
+        return ["ok", json.loads(json.dumps(canon_obj(out)))]
+    except Exception as e:  # noqa
+        return ["err", exc_name(e)]
+
+
+def shifted(c, delta):
+    c2 = json.loads(json.dumps({k: v for k, v in c.items() if not k.startswith("_")}))
+    for m in c2["layout"]["memories"]:
+        m["location"] += delta
+    return c2
+
+
+def first_diff(a, b):
+    if a[0] != b[0] or a[0] == "err":
+        return None if a == b else ("outcome", a if a[0] == "err" else "ok", b if b[0] == "err" else "ok")
+    for k in a[1]:
+        if a[1][k] != b[1][k]:
+            return (k, a[1][k], b[1][k])
+    return None
+
+
+def aliasing_checks(c, objs, before, first):
+    """(1) the link must not change its input objects; (2) linking the SAME in-memory objects again
+    (same layout, then a shifted layout) must give what fresh copies give."""
+    found = []
+    first_c = ["ok", json.loads(json.dumps(canon_obj(first[1])))] if first[0] == "ok" else ["err", first[1]]
+
+    def inputs_changed(stage):
+        after = snapshot_inputs(objs)
+        if after != before:
+            k = next(i for i, (x, y) in enumerate(zip(before, after)) if x != y)
+            f = next(key for key in before[k] if before[k][key] != after[k][key])
+            found.append(("link:input-object-mutated", f"{stage}: input object {k} changed in field {f}",
+                          {"obj": k, "field": f, "before": repr(before[k][f])[:300], "after": repr(after[k][f])[:300]}))
+            return True
+        return False
+
+    if inputs_changed("first link"):
+        return found
+    second = link_outcome(c, objs, build_layout(c))
+    d = first_diff(first_c, second)
+    if d:
+        found.append(("link:second-link-differs", f"linking the same in-memory objects a second time differs in {d[0]}",
+                      {"field": d[0], "first": repr(d[1])[:300], "second": repr(d[2])[:300]}))
+    if inputs_changed("second link"):
+        return found
+    if c["layout"] is not None and c["layout"]["memories"]:
+        c2 = shifted(c, 24)
+        used = link_outcome(c2, objs, build_layout(c2))
+        fresh = link_outcome(c2, build_objects(c2), build_layout(c2))
+        d = first_diff(fresh, used)
+        if d:
+            found.append(("link:second-link-differs",
+                          f"linking the already linked in-memory objects under a shifted layout differs from fresh copies in {d[0]}",
+                          {"field": d[0], "fresh": repr(d[1])[:300], "reused": repr(d[2])[:300]}))
+        inputs_changed("link under shifted layout")
+    return found
 
 
 def guarded(f):
@@ -1118,6 +1201,9 @@ def run_cases(ctx, cases, impls=None, extra=()):
                 if k < len(tr) and i < len(tr[k]["offsets"]) and tr[k]["offsets"][i][1] != off:
                     ctx.disagree("inject_object:section_offsets", c, off, tr[k]["offsets"][i])
         check_property(ctx, c, impl, objs, observed, model, spec)
+        for sig, what, detail in _ALIAS.pop(id(c), []):
+            ctx.fail(sig, what, c, **detail)
+        ctx.count("eval_relink_same_objects")
         # statistics
         ctx.count("eval_link")
         outcome = "ok" if impl[0] == "ok" else "err_" + impl[1]
